@@ -3,6 +3,7 @@ CONSTANTS
   Alphabet <- Alpha14
   MaxLen = 4
   StepLen = 3
+  LexLen = 4
   OptSets <- EscOptSets
 INVARIANT Inverse
 INVARIANT LexInverse
